@@ -210,6 +210,32 @@ impl<'a> VisitMut for Rw<'a> {
     }
 
     fn visit_stmt_mut(&mut self, s: &mut Stmt) {
+        // R7 in a `let`: an accessor call that an exprmap replaces by the PLACE it returns a reference to (`self.get_state_mut()
+        // => self.state`) and that is bound to a name (`let state = self.get_state_mut();`) becomes a borrow of that place
+        // (`let state = &mut self.state;`, `&` when the accessor's name does not end in `_mut`); as an expression statement,
+        // receiver or argument the place itself is what Rust's auto-borrow reads
+        if let Stmt::Local(l) = s {
+            if let Some(init) = &mut l.init {
+                if init.diverge.is_none() {
+                    let cur = norm(&init.expr.to_token_stream());
+                    let hit = self.maps.exprmap.iter().find(|(k, _)| *k == cur).cloned();
+                    if let Some((k, v)) = hit {
+                        if let Ok(pe) = parse_str::<Expr>(&v) {
+                            if matches!(pe, Expr::Field(_) | Expr::Path(_)) && matches!(&*init.expr, Expr::MethodCall(m) if m.args.is_empty()) {
+                                let is_mut = k.trim_end_matches(|c: char| c == '(' || c == ')' || c == ' ').ends_with("_mut");
+                                let txt = if is_mut { format!("&mut {v}") } else { format!("&{v}") };
+                                if let Ok(ne) = parse_str::<Expr>(&txt) {
+                                    self.used_expr.insert(k.clone());
+                                    self.log.push(json!({"rule": "R7-let", "src_line": line_of(l.let_token.span), "before": cur, "after": txt}));
+                                    *init.expr = ne;
+                                    return;
+                                }
+                            }
+                        }
+                    }
+                }
+            }
+        }
         visit_mut::visit_stmt_mut(self, s);
         // R7 on a statement macro (`println!(..);`): an exprmap naming the whole macro call, in its source text, takes precedence
         // over the blanket R5 replacement
